@@ -190,6 +190,14 @@ def run_corr(ctx, rep, profiles, fields, oracle=None, classify=None, timeout_ms=
                 dist["value_non_nil"] += 1
             if io.get("trace"):
                 dist["with_code_blocks_run"] += 1
+        # the specification on the cases in its scope
+        ref, inscope, bad_ref = {}, [], set()
+        if ref_fields:
+            inscope = [l for l in lines if scope(l)]
+            ref = corr.run_model(ctx.sc, driver, tables, inscope, extra="-ref", tag="ref")
+            dist["compared_with_Ref"] += len(inscope)
+            bad_ref = {corr.case_id(l) for l in inscope
+                       if not same_on(ref_fields, impl.get(corr.case_id(l), {}), ref.get(corr.case_id(l), {}))}
         # (1) correspondence model(faithful) <-> implementation on the projected fields
         for cid, l in by_id.items():
             m, i = model.get(cid, {}), impl.get(cid, {})
@@ -200,14 +208,13 @@ def run_corr(ctx, rep, profiles, fields, oracle=None, classify=None, timeout_ms=
                 if q:
                     known_hits[q] += 1
                     continue
-                rep.violation(problem, {"case": l, "field": f, "model": m, "impl": i, "grammars": pretty_of(pretty, cid)},
-                              found=bool(oracle and oracle(l, i, m)))
+                # a failing input is in hand when the implementation also departs from the specification here
+                found = (cid in bad_ref) or bool(oracle and oracle(l, i, m))
+                rep.violation(problem, {"case": l, "field": f, "model": m, "impl": i, "ref": ref.get(cid), "grammars": pretty_of(pretty, cid)},
+                              found=found)
         # (2) the implementation against the specification
         if ref_fields:
-            inscope = [l for l in lines if scope(l)]
-            ref = corr.run_model(ctx.sc, driver, tables, inscope, extra="-ref", tag="ref")
-            dist["compared_with_Ref"] += len(inscope)
-            bad = [l for l in inscope if not same_on(ref_fields, impl.get(corr.case_id(l), {}), ref.get(corr.case_id(l), {}))]
+            bad = [l for l in inscope if corr.case_id(l) in bad_ref]
             attributed = {}
             todo = list(bad)
             for sub in quirk_subsets():          # smallest set of repaired quirks that explains the difference
@@ -288,6 +295,9 @@ def pretty_of(pretty_path, cid):
 def run_property(name, tier, seed, replay=None):
     t0 = time.time()
     ent = REGISTRY[name]
+    import glob
+    for old in glob.glob(os.path.join(C.VERIF, "evidence", "replay", name + "-*.json")):
+        os.remove(old)
     ctx = Ctx(name, tier, seed)
     rep = Report()
     rc = 0
